@@ -24,6 +24,16 @@ static inline void watchdog(unsigned secs) { signal(SIGALRM, watchdog_fired); al
 
 using namespace ArduinoJson;
 
+// custom reader that records how deep the stack is whenever the library asks it for input (the lowest address of one
+// of its own locals): the stack consumed by a deserializer call = address of a local of the caller - that lowest address
+struct StackProbeReader {
+  const std::string& s; size_t p = 0; uintptr_t lowest = ~uintptr_t(0);
+  explicit StackProbeReader(const std::string& str) : s(str) {}
+  void probe() { volatile char here = 0; uintptr_t a = reinterpret_cast<uintptr_t>(&here); if (a < lowest) lowest = a; }
+  int read() { probe(); return p < s.size() ? (unsigned char)s[p++] : -1; }
+  size_t readBytes(char* b, size_t n) { probe(); size_t i = 0; while (i < n && p < s.size()) b[i++] = s[p++]; return i; }
+};
+
 // a std::streambuf that hands out its data in blocks of `chunk` bytes (like a socket or a decompressor would): the get
 // area never holds more than one block, so every block boundary goes through underflow()
 struct ChunkedBuf : std::streambuf {
